@@ -734,7 +734,47 @@ fn imports_of(text: &str) -> Vec<String> {
     text.lines().filter_map(|l| l.trim().strip_prefix("import ")).map(|r| r.trim().trim_end_matches(';').to_string()).filter(|n| is_ident(n)).collect()
 }
 
+/// a program with generic and plain types, inherent impls (generic ones and ones on a single
+/// instantiation), a trait impl, and let-bound receivers of several instantiations
+fn method_program(d: &mut Dec) -> String {
+    let prims = [("int32", "1"), ("string", "\"s\""), ("bool", "true"), ("int64", "2i64")];
+    let spec = d.below(prims.len());
+    let gname = ["Box", "Cell", "Wrap"][d.below(3)];
+    let mut t = String::new();
+    t.push_str(&format!("struct {gname}[T] {{\n    value: T,\n    tag: int32,\n}}\n\n"));
+    t.push_str(&format!("impl[T] {gname}[T] {{\n    fn get(self: {gname}[T]) -> T {{\n        self.value\n    }}\n}}\n\n"));
+    // methods that exist for one instantiation only
+    let (st, _) = prims[spec];
+    let only = ["double", "only_here", "special"][d.below(3)];
+    t.push_str(&format!("impl {gname}[{st}] {{\n    fn {only}(self: {gname}[{st}]) -> int32 {{\n        self.tag\n    }}\n}}\n\n"));
+    if d.bool() {
+        let (st2, _) = prims[(spec + 1) % prims.len()];
+        t.push_str(&format!("impl {gname}[{st2}] {{\n    fn other(self: {gname}[{st2}]) -> int32 {{\n        self.tag + 1\n    }}\n}}\n\n"));
+    }
+    t.push_str("struct P {\n    x: int32,\n    y: string,\n}\n\nimpl P {\n    fn sum(self: P) -> int32 {\n        self.x\n    }\n}\n\n");
+    t.push_str("trait Show {\n    fn show(Self) -> string;\n}\n\nimpl Show for P {\n    fn show(self: P) -> string {\n        self.y\n    }\n}\n\n");
+    t.push_str("fn main() {\n");
+    let n = 2 + d.below(3);
+    for i in 0..n {
+        let (_, lit) = prims[(spec + i) % prims.len()];
+        let (ty, _) = prims[(spec + i) % prims.len()];
+        t.push_str(&format!("    let r{i}: {gname}[{ty}] = {gname} {{ value: {lit}, tag: {i} }};\n"));
+    }
+    t.push_str("    let p: P = P { x: 1, y: \"a\" };\n    ()\n}\n");
+    t
+}
+
 fn make_completion(d: &mut Dec, ctx: &mut Ctx) -> Value {
+    if d.chance(50) {
+        let text = method_program(d);
+        let sites = dot_sites(&text);
+        if !sites.is_empty() {
+            let (line, indent, ns) = sites[d.below(sites.len())].clone();
+            let recv = ns[d.below(ns.len())].clone();
+            return json!({"kind":"completion","mode":"dot","text":text,"after_line":line,"indent":indent,"recv":recv,"prefix":"",
+                          "form": if d.bool() { "let" } else { "bare" }, "source":"methods"});
+        }
+    }
     if d.chance(40) && !corpus::project_cases().is_empty() {
         // a multi-package project: requests in its main.gom
         let pc = &corpus::project_cases()[d.below(corpus::project_cases().len())];
@@ -931,7 +971,11 @@ fn judge_completion_at(input: &Value, ctx: &mut Ctx, path: &Path) -> CaseOut {
             }
         };
         if let Some(bad) = errs.iter().find(|m| says_unknown(m, name)) {
-            let why = if bad.contains("for type ExprId") { "|unresolved-receiver" } else { "" };
+            // KF-49: the builtin to_string offered on a receiver whose numeric type is not resolved yet
+            // (KF-49: method lookup before the receiver's type is resolved; the receivers of
+            // the `methods` source are annotated, so there the message means the method is bogus)
+            let annotated = input["source"].as_str() == Some("methods");
+            let why = if bad.contains("for type ExprId") && !annotated { "|unresolved-receiver" } else { "" };
             if !why.is_empty() && ctx.gated(GATE_METHOD_UNRESOLVED) {
                 labels.push("gated:method-on-unresolved-receiver".into());
                 continue;
